@@ -1382,6 +1382,14 @@ def ext_call(it, dotted, args, kw, n):
         if r is not None:
             return r
     last = dotted.split('.')[-1]
+    if dotted.split('.')[-2:-1] in (['bitarray'], ['frozenbitarray']) and last not in ('bitarray', 'frozenbitarray', 'util') and dotted.count('.') >= 2 and args and (isinstance(args[0], BA) or (isinstance(args[0], Inst) and isinstance(args[0].native, BA))):
+        # an unbound method of the library class applied to an instance: `bitarray.extend(self, x)` - the library's own implementation,
+        # not an override of a subclass
+        nat = args[0] if isinstance(args[0], BA) else args[0].native
+        m_ = ba_methods(it, nat, last, args[0] if isinstance(args[0], Inst) else None)
+        if m_ is None:
+            raise Fail(f'bitarray.{last} is not modelled')
+        return it.call(m_, list(args[1:]), dict(kw), n)
     if dotted in ('hashlib.sha256', 'hashlib.sha512', 'hashlib.sha1', 'hashlib.md5'):
         return Hasher(last, args[0] if args else None)
     if dotted == 'struct.Struct' and args and isinstance(args[0], K) and isinstance(args[0].v, (str, bytes)):
